@@ -104,6 +104,7 @@ def unit_rac(eng, tier="quick"):
               ("warn-two-semicolons", "\t.byte\t\t; pad to even; see start\nmake_raw\n", 0), ("err-quote-in-comment", ".word 200000 ; it's \"big\"; really\nmake_raw\n", 1),
               # an output path the operating system cannot express (NUL): an io-error report, not the internal-error path
               ("err-nul-in-output-path", "nop\nmake_raw \"a\\x00b\"\n", 1),
+              ("err-too-large-bin-next-to-raw", ".blkb 60000.\n.blkb 60000.\nmake_bin \"o.bin\"\nmake_raw \"o.raw\"\n", 1), ("err-too-large-raw-first", ".blkb 60000.\n.blkb 60000.\nmake_raw \"o.raw\"\nmake_wav \"o.wav\"\n", 1),
               ("err-unused-undefined", "limit = top - 2\nnop\nmake_raw\n", 1), ("err-unused-divzero-later", "x = y / z\nz = 0\ny = 1\nnop\nmake_raw\n", 1),
               ("err-unused-label-expr", "nop\nq = e - zz\ne:\nmake_raw\n", 1)]
     # identifiers that are a warning in one place and an ERROR in another: switching the warning off must not hide (or change) the error
